@@ -259,6 +259,11 @@ def gen_cases(rng, tier):
                     continue
                 dt = pick("fd")
                 x = eighths(rng, size(s))
+                if rng.random() < 0.3:
+                    # every lane far from zero (the result is shift invariant; a stabilising shift that is not the lane maximum
+                    # under- / overflows exp): offsets are multiples of 1/8, so the data stay exactly representable
+                    off = rng.choice([-100.0, -120.5, -750.0, 100.0, 95.25, 730.0]) if dt == "d" else rng.choice([-100.0, -120.5, 100.0, 95.25])
+                    x = [v + off for v in x]
                 cases.append(dict(op=op, args="%s %s %d" % (dt, fmt_foperand(s, x), axis), dtype=dt, xs=s, x=x, axis=axis))
 
     # ---------------- normalisations
